@@ -31,6 +31,8 @@ def run(rep, tier):
         common.guarded(rep, "C03.8", c03_8, rep, ix, M, cc, branches)
     common.guarded(rep, "C03.4", c03_4, rep, ix, M)
     common.guarded(rep, "C03.5", c03_5, rep, ix, M)
+    from .c05 import shared_tables
+    shared_tables(rep, ix, M.G)
 
 
 # ------------------------------------------------------------------------------------------- C03.1 precedence / associativity
